@@ -732,7 +732,8 @@ namespace avel {
         AVEL_FINL explicit operator mask() const {
             #if defined(AVEL_AVX512VL) || defined(AVEL_AVX10_1)
             auto t = _mm_castps_si128(content);
-            return mask{_mm_test_epi32_mask(t, t)};
+            (void) t;
+            return mask{_mm_cmp_ps_mask(content, _mm_setzero_ps(), _CMP_NEQ_UQ)};
 
             #elif defined(AVEL_AVX)
             return mask{_mm_cmp_ps(content, _mm_setzero_ps(), _CMP_NEQ_UQ)};
